@@ -38,10 +38,10 @@ from fcv import c16_batches_p6g as p6g
 from fcv.num import f2u
 
 REL = 1e-8
-# phase 6 (package G): two meshes that BOTH store integer-typed coordinates make Mesh.equals raise (suspected defect, reported in
-# notes/PHASE6_G2_C16.md (c), not registered in KNOWN_FINDINGS.json): recorded as an observation (tag obs-int-coords-raise,
-# evidence note) until the lead decides; True = rule S1 applies to them like to every other pair
-INT_COORDS_STRICT = False
+# phase 6 (package G): two meshes that BOTH store integer-typed coordinates made Mesh.equals raise (in-place product of an integer
+# array and a float tolerance in fuzzy_equal): genuine defect F22, repaired by fix fa67d80 in /repo; rule S1 (never an exception)
+# applies to such pairs like to every other pair (False = the observation-only mode used before the lead's decision)
+INT_COORDS_STRICT = True
 
 
 # ---------------------------------------------------------------- generators
